@@ -166,6 +166,16 @@ def check_decimal(repo, rep):
     rep.floor(rid, 2)
 
 
+def check_tables(repo, rep):
+    from props.c07 import check_tables as c07_tables
+    before = len(rep.violations)
+    c07_tables(repo, rep)
+    # (same rule as C07-R3: the tables agree with the minutes their labels spell; reported here under C17 as well)
+    for v in rep.violations[before:]:
+        v["rule"] = "C17-R4t"
+        v["key"] = v["key"].replace("C07-R3|", "C17-R4t|")
+
+
 def check_timeframes(repo, rep):
     rid = "C17-R4"
     rep.rule(rid, "max_timeframe interpreted for every singleton and every pair of enums.timeframes (a priority cascade is correct "
@@ -207,6 +217,7 @@ def run(repo: Repo, rep, tier: str):
     rep.guarded(check_rounding, repo, rep)
     rep.guarded(check_decimal, repo, rep)
     rep.guarded(check_timeframes, repo, rep)
+    rep.guarded(check_tables, repo, rep)
     rep.undecided_item("the bound 'never costs more than the capital' under IEEE-754 rounding of size/price and of the final division (decided in real arithmetic only)")
 
 
